@@ -193,9 +193,7 @@ def concurrent_run(chk, progs, policy):
     sc = sched.Sched()
     ok = proto.frame(ids.login_success, ids.b_login_success())
     net = sim.Net([sim.Server([ok], end='idle') for _ in range(12)], idle_limit=10 ** 9).install()
-    saved = (C.RLock, C.deque)
-    C.RLock = lambda: sched.InstrLock(sc)
-    C.deque = sched.make_deque(sc)
+    undo = sched.instrument(C, sc)
     net.switch_hook = lambda what: sc.yield_point(what)
     next_tid = [100]
 
@@ -270,7 +268,7 @@ def concurrent_run(chk, progs, policy):
                 reconnect = exn_name(e)
     finally:
         sc.kill_all()
-        C.RLock, C.deque = saved
+        undo()
         net.switch_hook = net.join_hook = net.start_hook = None
         net.uninstall()
     # loop occupancy from the enter / exit events
